@@ -1,4 +1,5 @@
 import DyntplV.Impl
+import DyntplV.QB
 /-!
 # C14 — break, continue and lazybreak end exactly the loops they name
 
@@ -189,8 +190,8 @@ example :
 theorem rloopQB_plain (run : St → Res) (re : Option (St → Res)) (ls : RLoopSpec) (s : St)
     (hb : indexOf 91 ls.src = none) :
     rloopQB run re ls s = rloopWith run re ls { s with c := { s.c with err := none } } := by
-  unfold rloopQB cmpPath replaceQB
-  cases s.c.chQB <;> simp [hb]
+  unfold rloopQB cmpPath
+  cases s.c.chQB <;> simp [replaceQB_plain _ _ hb]
 
 /-- … and from a state without a pending error that is the loop at that very state. -/
 theorem rloopQB_plain_clean (run : St → Res) (re : Option (St → Res)) (ls : RLoopSpec) (s : St)
